@@ -95,9 +95,9 @@ def run(ctx, proof):
                 before_known = set(int(i) for i in np.where(known)[0])
                 try:
                     res = lin.step(k)
-                except AssertionError as e:
+                except Exception as e:  # noqa: BLE001  (a step with a size the mask allows must not raise)
                     raised = (k, sorted(before_known), str(e)[:100])
-                    fails.append(("step with an allowed size raised AssertionError (it went for a coalition that is already known)", k))
+                    fails.append((f"step({k}) with a size the mask allows raised {type(e).__name__}: {str(e)[:80]}", k))
                     break
                 held = (res[0], [float(x) for x in res[0]], f"step({k})")
                 c = int(res[4]["chosen_coalition"])
